@@ -111,7 +111,11 @@ def simulate(case, draw, after_op, on_exception=None, shadow=True):
                 info["f5_effective"] += 1
             try:
                 outs, shs = e1.execute(task, rec, w, shadow=shadow)
-            except core.Violation:
+            except core.Violation as vio:
+                if vio.prop != case["property"]:
+                    # an oracle of another property living inside a shared op (E2/E3 ops carry C06-C12 oracles): not this check's business
+                    w.probes["foreign_oracle_%s_ignored" % vio.prop] += 1
+                    continue
                 raise
             except Exception as e:  # noqa: BLE001
                 info["exceptions"] += 1
